@@ -74,10 +74,14 @@ func TwoSinks() *app.Res {
 	rs.Node("root", "a:\n{{.ra}}", app.Code().Load("ra", 0).Map("ra").MNext("fw", "8").MPrev("bk", "9").MOut("b", "1").Halt().
 		InCmp(">", "8").InCmp("<", "9").InCmp("other", "1").Bytes())
 	rs.Node("other", "b:\n{{.rb}}", app.Code().Load("rb", 0).Map("rb").MNext("fw", "8").MPrev("bk", "9").MOut("a", "0").Halt().
-		InCmp(">", "8").InCmp("<", "9").InCmp("_", "0").Bytes())
+		InCmp("_", "0").InCmp(">", "8").InCmp("<", "9").Bytes()) // "previous" is this node's last line
 	rs.Node("_catch", "oops", app.Code().MOut("back", "0").Halt().InCmp("_", "*").Bytes())
 	return rs
 }
+
+// NeverEnds: no input ends a session of this application (every node stops
+// at a HALT in front of its INCMP lines, none terminates).
+func NeverEnds(i int) bool { return i == 0 || i == 3 }
 
 func Get(i int) *app.Res {
 	switch i {
